@@ -82,7 +82,15 @@ def main(argv=None):
             facts_dir, fact_hash, info = extract.extract()
         ctx = Ctx(facts_dir)
         ctx.tier = a.tier
+        fv = os.environ.get('OXA_FORCE_VIEW')          # debugging aid: '2' / '3' analyse the inlined (/ decision-split) view directly
+        if fv in ('2', '3'):
+            ctx_f = ctx.inlined_view(split=(fv == '3'))
+            if ctx_f is not None:
+                ctx = ctx_f
+                ctx.tier = a.tier
         results = mod.run(ctx, a.tier)
+        if fv == '3':
+            _collapse_copies(results)
         # second view: when the rules report something new and the tree has private helper functions outside the
         # vocabulary the rules summarise, analyse those helpers in the context of their callers (inlined).  Both
         # views are complete analyses of the property (every private helper is analysed at each of its call sites),
